@@ -3,6 +3,16 @@
 // (visit_stmt, visit_assignment_fixture, visit_pytestmark_assignment, all_args) against the operational
 // specification prelude/visit_spec.rs (visit_defs / visit_uses: what ONE statement makes the index record).
 // Discharges assumption A7 of unit analyze.
+// v2 (COMPOSED with unit classify): is_in_site_packages / is_editable_install_third_party are `//@stub classify ..`
+// (contracts PROVED there) instead of contract-less stubs, and the two @wrapexpr external_body helpers that ASSUMED
+//     `self.is_in_site_packages(f) || self.is_editable_install_third_party(f)` == env_third_party(f)   and
+//     `self.plugin_fixture_files.contains_key(f)` == env_is_plugin(f)
+// are GONE: Verus verifies the real expressions.  What links them to the two uninterpreted environment functions of
+// prelude/visit_spec.rs is the explicit precondition env_ok (prelude/visit_env.rs) of visit_stmt /
+// visit_assignment_fixture; that it survives every call is proved: rec_rel (prelude/visit_dbspecs_v2.rs) now carries
+// vframe = no field other than the index maps and undeclared_fixtures changes, over a database struct that lists EVERY
+// field except ast_cache.  That frame needs the providers' frames over the same struct: unit index_maint_v2
+// (rest() of prelude/index_dbspecs_all.rs) and unit undeclared_scan_v2 (struct-update clause).
 //   L1  each visitor moves the database by exactly `rec_rel(old, new, visit_defs(..), visit_uses(..), file)`:
 //       a sequence of record_fixture_definition / record_fixture_usage effects, nothing else touched
 //       (file_cache, imports unchanged; undeclared_fixtures changed at most at key `file`; version = one bump per
@@ -49,10 +59,15 @@ use pre::*;
 
 #[verifier::external_type_specification] pub struct ExUndeclaredFixture(UndeclaredFixture);
 
-//@dbstruct_arc definitions file_definitions usages usage_by_fixture definitions_version file_cache undeclared_fixtures imports plugin_fixture_files
+#[verifier::external_type_specification] pub struct ExFixtureCycle(FixtureCycle);
+//@item src/fixtures/mod.rs struct EditableInstall
+//@dbstruct_arc definitions file_definitions usages usage_by_fixture definitions_version file_cache undeclared_fixtures imports canonical_path_cache line_index_cache cycle_cache available_fixtures_cache imported_fixtures_cache site_packages_paths editable_install_roots workspace_root plugin_fixture_files
 
-//@include prelude/index_dbspecs.rs
-//@include prelude/visit_dbspecs.rs
+//@include prelude/index_dbspecs_all.rs
+//@include prelude/opt_pbv.rs
+//@include prelude/classify_spec.rs
+//@include prelude/visit_env.rs
+//@include prelude/visit_dbspecs_v2.rs
 
 broadcast use {axiom_string_to_string, axiom_identifier_to_string, axiom_tsv_u32, axiom_str_blen};
 
@@ -79,15 +94,10 @@ impl FixtureDatabase {
 // delegation to string_utils PROVED in unit position; the string search itself stays abstract (name_pos; Kani)
 //@stub position find_function_name_position
 
-    // ---- callee contracts ASSUMED here (environment inputs) ---------------------------------------------------
-    /// reads editable_install_roots / workspace_root (environment); only called inside vp_is_third_party
-    #[verifier::external_body]
-    pub(crate) fn is_editable_install_third_party(&self, file_path: &Path) -> (r: bool)
-    { unimplemented!() }
-    /// reads workspace_root (environment); only called inside vp_is_third_party; under contract in unit classify
-    #[verifier::external_body]
-    pub(crate) fn is_in_site_packages(&self, file_path: &Path) -> (r: bool)
-    { unimplemented!() }
+    // ---- third-party classification: the contracts PROVED in unit classify (environment = workspace_root,
+    //      editable_install_roots; the link to env_third_party is the precondition env_ok, prelude/visit_env.rs)
+//@stub classify is_in_site_packages
+//@stub classify is_editable_install_third_party
     // undeclared.rs scan_function_body_for_undeclared_fixtures: the contract PROVED in unit undeclared_scan (the findings
     // pushed onto undeclared_fixtures[file_path] are exactly scan_fn(..); nothing else changes) -- the frame formerly
     // ASSUMED here is a consequence of it
@@ -112,8 +122,6 @@ impl FixtureDatabase {
 @tags C03 C06 C15 C12
 @recv mut
 @wrapexpr 1 `ann_assign.value.as_deref()` => `Self::vp_ann_value(ann_assign)` with fn vp_ann_value(ann_assign: &rustpython_parser::ast::StmtAnnAssign) -> (r: Option<&Expr>) ensures opt_deref(r) == opt_unbox(ann_assign.value)
-@wrapexpr 1 `self.is_in_site_packages(file_path) || self.is_editable_install_third_party(file_path)` => `self.vp_is_third_party(file_path)` with fn vp_is_third_party(&self, file_path: &PathBuf) -> (r: bool) ensures r == env_third_party(pbv(file_path))
-@wrapexpr 1 `self.plugin_fixture_files.contains_key(file_path)` => `self.vp_is_plugin(file_path)` with fn vp_is_plugin(&self, file_path: &PathBuf) -> (r: bool) ensures r == env_is_plugin(pbv(file_path))
 @wrapexpr 1 `func_name.starts_with("test_")` => `Self::vp_is_test_name(func_name)` with fn vp_is_test_name(func_name: &str) -> (r: bool) ensures r == is_test_name(func_name@)
 @replace 1 `Self::all_args(args)` => `Self::vp_all_args(args)`
 @replace 2 `Self::all_args(args)` => `Self::vp_all_args(args)`
@@ -123,8 +131,12 @@ impl FixtureDatabase {
 @closure unwrap_or_else:1 || -> (s: String) ensures s@ == func_name@
 @sig
     requires is_line_index(ints(line_index@)), visit_pre(*stmt, line_index@),
+        // the environment hypothesis (prelude/visit_env.rs): env_third_party / env_is_plugin are what THIS database says
+        old(self).env_ok(),
     ensures
         rec_rel(*old(self), *final(self), visit_defs(*stmt, pbv(file_path), content@, line_index@), visit_uses(*stmt, pbv(file_path), content@, line_index@), pbv(file_path)),
+        // nothing but the index maps and undeclared_fixtures changes; in particular the hypothesis survives
+        vframe(*old(self), *final(self)), final(self).env_ok(),
         final(self).defs() == push_defs(old(self).defs(), visit_defs(*stmt, pbv(file_path), content@, line_index@)),
         final(self).fdefs() == add_fdefs(old(self).fdefs(), visit_defs(*stmt, pbv(file_path), content@, line_index@)),
         final(self).uses() == push_uses(old(self).uses(), visit_uses(*stmt, pbv(file_path), content@, line_index@)),
@@ -244,7 +256,7 @@ impl FixtureDatabase {
 @loopvar 3 it3
 @loop 3
     invariant f == pbv(file_path), li == line_index@, src == content@, is_line_index(ints(li)),
-        cb == class_def.body@, it3.seq() == cb.as_ref(), *stmt == Stmt::ClassDef(*class_def),
+        cb == class_def.body@, it3.seq() == cb.as_ref(), *stmt == Stmt::ClassDef(*class_def), old(self).env_ok(),
         body_pre(cb, cb.len() as int, li),
         du == body_defs(cb, it3.index@ as int, f, src, li),
         uu == uc + body_uses(cb, it3.index@ as int, f, src, li),
@@ -253,6 +265,7 @@ impl FixtureDatabase {
     let ghost k = it3.index@ as int;
     let ghost s0 = *self;
     proof {
+        lemma_rec_open(*old(self), *self, du, uu, f);   // env_ok(self): precondition of the recursive call
         assert(*class_stmt == cb[k]);
         assert(decreases_to!(class_def.body => class_def.body@[k]));
         assert(match *stmt { Stmt::ClassDef(c) => c == *class_def, _ => false });
@@ -411,6 +424,13 @@ impl FixtureDatabase {
     proof { assert(scope == opt_or_else(spec_kw(decorator, kw_scope_fn()), FixtureScope::Function)); }
 @after extract_fixture_autouse 1
     proof { lemma_autouse_post(decorator, autouse); }
+@before is_third_party 1
+    proof { lemma_rec_open(*old(self), *self, du, uu, f); }
+@after is_plugin 1
+    proof {
+        assert(is_third_party == env_third_party(pbv(file_path)));
+        assert(is_plugin == env_is_plugin(pbv(file_path)));
+    }
 @before for 8
     let ghost base1 = Set::<Seq<char>>::empty().insert("self"@).insert("request"@).insert(func_name@);
     proof { assert(declared_params.s() =~= base1); assert(strs_v(dependencies@) =~= Seq::<Seq<char>>::empty()); }
@@ -509,8 +529,45 @@ impl FixtureDatabase {
 /*@ extract src/fixtures/analyzer.rs visit_assignment_fixture
 @tags C03 C06 C15 C12
 @recv mut
-@wrapexpr 1 `self.is_in_site_packages(file_path) || self.is_editable_install_third_party(file_path)` => `self.vp_is_third_party_a(file_path)` with fn vp_is_third_party_a(&self, file_path: &PathBuf) -> (r: bool) ensures r == env_third_party(pbv(file_path))
-@wrapexpr 1 `self.plugin_fixture_files.contains_key(file_path)` => `self.vp_is_plugin_a(file_path)` with fn vp_is_plugin_a(&self, file_path: &PathBuf) -> (r: bool) ensures r == env_is_plugin(pbv(file_path))
+@sig
+    requires is_line_index(ints(line_index@)), old(self).env_ok(),
+    ensures rec_rel(*old(self), *final(self), assign_defs(*assign, pbv(file_path), line_index@), Seq::empty(), pbv(file_path)),
+@start
+    let ghost f = pbv(file_path);
+    let ghost li = line_index@;
+    let ghost mut du: Seq<DefV> = Seq::empty();
+    proof { lemma_rec_refl(*old(self), f); }
+@loopvar 1 it
+@loop 1
+    invariant f == pbv(file_path), li == line_index@, is_line_index(ints(li)),
+        it.seq() == assign.targets@.as_ref(),
+        du == targets_defs(assign.targets@, it.index@ as int, assign.range, f, li),
+        rec_rel(*old(self), *self, du, Seq::empty(), f), old(self).env_ok(),
+@loopstart 1
+    let ghost i = it.index@ as int;
+    proof { assert(*target == assign.targets@[i]); lemma_rec_open(*old(self), *self, du, Seq::empty(), f); }
+@before record_fixture_definition 1
+    let ghost s1 = *self;
+    let ghost x = dv(&definition);
+    proof {
+        assert(is_third_party == env_third_party(pbv(file_path)));
+        assert(is_plugin == env_is_plugin(pbv(file_path)));
+        assert(x.dependencies =~= Seq::<Seq<char>>::empty());
+        assert(x == assign_def(*name, assign.range, f, li));
+    }
+@after record_fixture_definition 1
+    proof {
+        lemma_rec_def(*old(self), s1, *self, du, Seq::empty(), x, f);
+        du = du.push(x);
+    }
+@*/
+
+// exec canary: the same real body WITHOUT the environment hypothesis -- must FAIL (the hypothesis is needed: without
+// it the recorded is_third_party / is_plugin flags are not the uninterpreted env_third_party / env_is_plugin)
+/*@ extract src/fixtures/analyzer.rs visit_assignment_fixture
+@tags C03
+@as canary_assignment_fixture_without_env_ok
+@recv mut
 @sig
     requires is_line_index(ints(line_index@)),
     ensures rec_rel(*old(self), *final(self), assign_defs(*assign, pbv(file_path), line_index@), Seq::empty(), pbv(file_path)),
@@ -527,11 +584,13 @@ impl FixtureDatabase {
         rec_rel(*old(self), *self, du, Seq::empty(), f),
 @loopstart 1
     let ghost i = it.index@ as int;
-    proof { assert(*target == assign.targets@[i]); }
+    proof { assert(*target == assign.targets@[i]); lemma_rec_open(*old(self), *self, du, Seq::empty(), f); }
 @before record_fixture_definition 1
     let ghost s1 = *self;
     let ghost x = dv(&definition);
     proof {
+        assert(is_third_party == env_third_party(pbv(file_path)));
+        assert(is_plugin == env_is_plugin(pbv(file_path)));
         assert(x.dependencies =~= Seq::<Seq<char>>::empty());
         assert(x == assign_def(*name, assign.range, f, li));
     }
@@ -613,6 +672,36 @@ impl FixtureDatabase {
     proof { assert(ps.take(ps.len() as int) =~= ps); }
 @*/
 }
+
+
+//@tags C03
+/// C03 (third-party / plugin flags): under the environment hypothesis the flags recorded for a fixture are the
+/// classification PROVED in unit classify for this database's workspace root and editable installs, and membership
+/// of the file in plugin_fixture_files -- for function fixtures and assignment-style fixtures alike
+pub proof fn lemma_C03_recorded_flags_are_the_classification(db: FixtureDatabase, v: FnV, d: Expr, nm: AExprName, range: TextRange, file: PV, src: Seq<char>, li: Seq<usize>)
+    requires db.env_ok(),
+    ensures ({
+        let cls = op_in_site_packages(opt_pbv(db.workspace_root), file)
+            || op_editable_third_party(roots(db.editable_install_roots@), opt_pbv(db.workspace_root), file);
+        &&& fixture_def(v, d, file, src, li).is_third_party == cls
+        &&& assign_def(nm, range, file, li).is_third_party == cls
+        &&& fixture_def(v, d, file, src, li).is_plugin == db.plugin_fixture_files.m().contains_key(file)
+        &&& assign_def(nm, range, file, li).is_plugin == db.plugin_fixture_files.m().contains_key(file)
+    }),
+{
+    assert(env_third_party(file) == (op_in_site_packages(opt_pbv(db.workspace_root), file)
+        || op_editable_third_party(roots(db.editable_install_roots@), opt_pbv(db.workspace_root), file)));
+    assert(env_is_plugin(file) == db.plugin_fixture_files.m().dom().contains(file));
+}
+/// canary: "the environment hypothesis is contradictory"
+pub proof fn canary_env_ok_contradictory(db: FixtureDatabase)
+    requires db.env_ok(),
+    ensures false,
+{}
+/// canary: "the flags are the classification WITHOUT the hypothesis"
+pub proof fn canary_flags_without_env_ok(db: FixtureDatabase, nm: AExprName, range: TextRange, file: PV, li: Seq<usize>)
+    ensures assign_def(nm, range, file, li).is_plugin == db.plugin_fixture_files.m().contains_key(file),
+{}
 
 } // verus!
 fn main() {}
